@@ -1691,6 +1691,10 @@ func ruleC08TagReferent(c *Ctx) {
 		})
 		if links {
 			c.hold("C08.tag-referent", key, f.Pos(), "the resolver looks at the referent of a recorded tag")
+			// once tags are linked, a commit can have a tag as its parent:
+			// the prefix for what lies below such a commit has to end in ':'
+			// like every other commit prefix (`<tag>^{commit}:path`)
+			c.checkTagParentPrefix()
 		} else {
 			c.violate("C08.tag-referent", key, f.Pos(), fnName(f), "the full-name resolver ignores tags (empty RecordTag): the referent of an annotated tag is never linked to the tag, so a blob or tree reachable only through a tag on a tree is described as `???<name>`, which does not resolve")
 		}
@@ -1698,6 +1702,91 @@ func ruleC08TagReferent(c *Ctx) {
 	if n == 0 {
 		c.notDecided("C08.tag-referent", "resolver", token.NoPos, "no path resolver with a RecordTag method and a table of sought paths found")
 	}
+}
+
+// checkTagParentPrefix: in TreePrefix, the arm for a commit or tag that has a
+// parent returns a text that ends in ':'.
+func (c *Ctx) checkTagParentPrefix() {
+	const rule = "C08.root-prefix"
+	pt := c.namedType("/sizes", "Path")
+	if pt == nil {
+		return
+	}
+	f := c.methodOf(types.NewPointer(pt), "TreePrefix")
+	if f == nil || len(f.Params) == 0 {
+		return
+	}
+	isField := func(v ssa.Value, field string) bool {
+		b, p := c.fieldPath(c.resolve(v))
+		return b != nil && len(p) == 1 && p[0] == field && c.resolve(b) == ssa.Value(f.Params[0])
+	}
+	endsInColon := func(v ssa.Value) (bool, bool) {
+		v = c.resolve(v)
+		switch x := v.(type) {
+		case *ssa.Call:
+			if calleeQ(&x.Call) == "fmt.Sprintf" {
+				if fs, ok := constStr(x.Call.Args[0]); ok {
+					return strings.HasSuffix(fs, ":"), true
+				}
+			}
+		case *ssa.BinOp:
+			if x.Op == token.ADD {
+				if s, ok := constStr(x.Y); ok {
+					return strings.HasSuffix(s, ":"), true
+				}
+			}
+		case *ssa.Const:
+			if s, ok := constStr(x); ok {
+				return strings.HasSuffix(s, ":"), true
+			}
+		}
+		return false, false
+	}
+	n := 0
+	for _, ret := range returnsOf(f) {
+		hasParent, isCommit := false, false
+		notType := map[string]bool{}
+		for _, fct := range factsAt(ret.Block()) {
+			cond, truth := normCond(fct.Cond, fct.Truth)
+			cmp, ok := cond.(*ssa.BinOp)
+			if !ok || (cmp.Op != token.EQL && cmp.Op != token.NEQ) {
+				continue
+			}
+			eq := (cmp.Op == token.EQL) == truth
+			if isField(cmp.X, "parent") && isNilConst(cmp.Y) && !eq {
+				hasParent = true
+			}
+			if lit, isLit := constStr(cmp.Y); isLit && isField(cmp.X, "objectType") {
+				if eq && (lit == "commit" || lit == "tag") {
+					isCommit = true
+				}
+				if !eq {
+					notType[lit] = true
+				}
+			}
+		}
+		// the shared arm of `case "commit", "tag"`: neither blob nor tree, and
+		// not yet excluded
+		if notType["blob"] && notType["tree"] && !(notType["commit"] && notType["tag"]) {
+			isCommit = true
+		}
+		if !hasParent || !isCommit {
+			continue
+		}
+		for _, v := range c.resultValues(ret, 0) {
+			n++
+			ok, decided := endsInColon(v)
+			switch {
+			case !decided:
+				c.notDecided(rule, "tag-parent:colon", ret.Pos(), "the text returned for a commit below a tag is not a format or a concatenation with a constant end")
+			case ok:
+				c.hold(rule, "tag-parent:colon", ret.Pos(), "the prefix of a commit reached through a tag ends in ':'")
+			default:
+				c.violate(rule, "tag-parent:colon", ret.Pos(), fnName(f), "tags are linked to their referents, so a commit can have a tag as its parent, but the prefix built for what lies below such a commit does not end in ':' (`<tag>^{commit}dir/file`): the description does not resolve")
+			}
+		}
+	}
+	_ = n
 }
 
 // checkSeparatorFn: the function that finds the colon between <rev> and
